@@ -829,8 +829,10 @@ func (e *escaper) escapeTemplateBody(c, out context, t *template.Template) (cont
 			// accurate output context.
 			return true
 		}
-		// c1 is accurate if it matches our assumed output context.
-		return out.eq(c1)
+		// c1 is accurate if it matches our assumed output context, also in what is
+		// known about names left open or split.
+		return out.eq(c1) && out.nameOpen == c1.nameOpen && out.tagNameOpen == c1.tagNameOpen &&
+			out.element.split == c1.element.split && out.element.attrSplit == c1.element.attrSplit && out.attr.split == c1.attr.split
 	}
 	// We need to assume an output context so that recursive template calls
 	// take the fast path out of escapeTree instead of infinitely recursing.
